@@ -5,6 +5,7 @@ import (
 	"os"
 	"path/filepath"
 	"sort"
+	"strings"
 	"testing"
 
 	"github.com/ethereum/go-ethereum/common"
@@ -413,6 +414,14 @@ func (rb *rebooter) run(model *simdisk.FSModel, img map[string][]byte, mem *memo
 			v.Key = "reboot-" + v.Key
 			v.Oracle = "reboot-" + v.Oracle
 		}
+		// freezer-level causes that are already recorded under C24 get one key each,
+		// wherever they surface (rawdb.Open error, pathdb log.Crit, panic in Freezer.repair)
+		switch {
+		case strings.Contains(v.Msg, "failed to decode metadata"):
+			v.Key = "reboot-failed:" + rb.modeKey() + ":torn-freezer-metadata"
+		case strings.Contains(v.Msg, "non-prunable freezer table"):
+			v.Key = "reboot-failed:" + rb.modeKey() + ":non-prunable-table-nonzero-tail"
+		}
 		return v
 	}
 	w.quiesce()
@@ -474,7 +483,13 @@ func (rb *rebooter) judge(w *world, bound int64, boundWhy string) *simcore.Viola
 		rb.res.Probe("reimport-skipped-target-below-finality")
 		return nil
 	}
+	// like a syncing node: import what follows the common ancestor of the rebooted
+	// head and the target
 	path := rb.tree.path(tnode)
+	hnode := rb.tree.nodeOf(head.Hash())
+	for len(path) > 0 && rb.tree.isAncestorOrSelf(path[0].idx, hnode) {
+		path = path[1:]
+	}
 	if len(path) > 0 {
 		n, err := bc.InsertChain(rb.tree.blocks(path))
 		if err != nil {
@@ -492,10 +507,16 @@ func (rb *rebooter) judge(w *world, bound int64, boundWhy string) *simcore.Viola
 	if cur := bc.CurrentBlock(); cur.Hash() != tblock.Hash() {
 		return viol("reimport-head-differs", "after re-import CurrentBlock is #%d %x, the twin that never crashed has #%d %x", cur.Number, cur.Hash().Bytes()[:4], tblock.NumberU64(), tblock.Hash().Bytes()[:4])
 	}
+	headerWasAhead := cv.hdr > cv.head
 	cv, v = w.canon()
 	if v != nil {
 		v = pre(v)
 		v.Msg = "after re-import: " + v.Msg
+		if v.Oracle == "reboot-canon-above-head" && headerWasAhead {
+			// C38 finding in its most common setting: the repair left the header head above
+			// the block head, the import of another fork moves it down and leaves the index above
+			v.Key = "reboot-canon-above-head:header-head-was-ahead-of-block-head"
+		}
 		return v
 	}
 	if v := w.checkState(); v != nil {
